@@ -1,6 +1,7 @@
 package chainsim
 
 import (
+	"encoding/json"
 	"bytes"
 	"encoding/hex"
 	"fmt"
@@ -21,8 +22,89 @@ import (
 	"verifsim/core"
 )
 
+// checkAwardsModelFree: when the model no longer follows the run, the queued awards are still visible in the state
+// before BeginBlock. If no validator lost stake in this BeginBlock (nothing was burned) the supply of the stake
+// denomination in force grows by exactly their sum, and every recipient other than the block's fee earner gains exactly
+// its award in that denomination.
+func (e *Exec) checkAwardsModelFree(pre, post *AppState, h int64) {
+	if pre == nil || post == nil || pre.AwardsOpaque || len(pre.Awards) == 0 {
+		return
+	}
+	for ah, pv := range pre.Vals {
+		if av, ok := post.Vals[ah]; !ok || av.StakedTokens.LT(pv.StakedTokens) {
+			return // a slash or a removal in this BeginBlock: burns and mints mix
+		}
+	}
+	denom := sdk.DefaultStakeDenom
+	if raw, ok := pre.Params["pos/StakeDenom"]; ok {
+		var d string
+		if json.Unmarshal([]byte(raw), &d) == nil && d != "" {
+			denom = d
+		}
+	}
+	bal := func(st *AppState, ah string) *big.Int {
+		var b *big.Int
+		switch denom {
+		case sdk.DefaultStakeDenom:
+			b = st.Balances[ah]
+		case DustDenom:
+			b = st.Dust[ah]
+		default:
+			b = st.Other[denom][ah]
+		}
+		if b == nil {
+			return new(big.Int)
+		}
+		return b
+	}
+	sup := func(st *AppState) *big.Int {
+		var b *big.Int
+		switch denom {
+		case sdk.DefaultStakeDenom:
+			b = st.Supply
+		case DustDenom:
+			b = st.SupplyDust
+		default:
+			b = st.SupplyOther[denom]
+		}
+		if b == nil {
+			return new(big.Int)
+		}
+		return b
+	}
+	sum := new(big.Int)
+	addrs := make([]string, 0, len(pre.Awards))
+	for ah, a := range pre.Awards {
+		sum.Add(sum, a)
+		addrs = append(addrs, ah)
+	}
+	sort.Strings(addrs)
+	e.res.Stats.Probe("awards_checked_without_model")
+	if got := new(big.Int).Sub(sup(post), sup(pre)); got.Cmp(sum) != 0 {
+		e.addViol(viol("C10", "award-mint-exact", e.step, map[string]string{"awards": "true", "model": "off"},
+			"BeginBlock of height %d changed the supply of %s by %s; the awards queued for it sum to %s", h, denom, got, sum))
+		return
+	}
+	feeEarners := 0
+	for _, ah := range addrs {
+		got := new(big.Int).Sub(bal(post, ah), bal(pre, ah))
+		if got.Cmp(pre.Awards[ah]) != 0 {
+			if got.Cmp(pre.Awards[ah]) > 0 && feeEarners == 0 && denom == sdk.DefaultStakeDenom {
+				feeEarners++ // the previous proposer also receives the block's fees
+				continue
+			}
+			e.addViol(viol("C10", "award-recipient-exact", e.step, map[string]string{"model": "off"},
+				"BeginBlock of height %d: %s had %s %s queued as award and its balance changed by %s", h, ah, pre.Awards[ah], denom, got))
+			return
+		}
+	}
+}
+
 // checkBeginBlock: exact slash amounts (C07) and the downtime decision (C08) per validator.
 func (e *Exec) checkBeginBlock(pre, post *AppState, exp *BBExpect, h int64) {
+	if pre != nil && post != nil && e.m.Desync != "" {
+		e.checkAwardsModelFree(pre, post, h)
+	}
 	if pre == nil || post == nil || exp == nil || e.m.Desync != "" {
 		return
 	}
